@@ -213,9 +213,8 @@ func c18Oracle(c *fw.Ctx, w *vs.World, name string, prm c18Params, st *c18State)
 				violate(c, w, name, "C18/deadline-at-call-start/call-failed-but-connection-left-open/"+dir+"/"+role, fmt.Sprintf("the %s deadline fell on the instant %s started (%v); the call failed with %q, which is not a deadline error, and the connection was not closed (the adapter's %s context stays cancelled)", dir, cl.op, time.Duration(cl.t0), cl.err, dir))
 				return
 			}
-			if cl.err != nil {
-				closedByDeadline = closedByDeadline || st.p.Closed
-			}
+			// (the call may also complete just before the callback closes the connection)
+			closedByDeadline = closedByDeadline || st.p.Closed
 		default: // cl.dl > cl.t0: the deadline lies in the future at call start
 			if cl.op == "Rn" {
 				// blocks until the deadline fires during the call
@@ -386,6 +385,17 @@ func c18Scenarios(tier string) []scenario {
 		}
 	}
 	gen(nil)
+	if depth < 4 {
+		// a deadline and its reset on the same instant (the timer has fired, its
+		// callback has not run yet): the shortest programs that reach it have length 4
+		for _, d := range []string{"R", "W"} {
+			call := d
+			for _, reset := range []string{"D0", "D1"} {
+				seqs = append(seqs, []string{d + "D1", "S1", d + reset, call})
+				seqs = append(seqs, []string{d + "Dp", "S1", d + reset, call})
+			}
+		}
+	}
 	for _, k := range []connCfg{{Client: false}, {Client: true}} {
 		for i, sq := range seqs {
 			prm := c18Params{K: k, Seq: sq}
